@@ -24,7 +24,8 @@ RULE = ("seeded random qiskit circuits (1-4 qubits, 1-10 gates over h,x,y,z,s,sd
         "its qubits, non-adjacent reversed cx, cascaded heralded gates); distinct = (gate-name sequence with qubits, "
         "flag); non-trivial = at least one multi-qubit gate")
 MANDATORY = ["three_qubit_then_two_qubit_on_two_of_its_qubits", "nonadjacent_cx_reversed", "two_heralded_cascaded",
-             "post_selection_rules_returned", "refusal_recorded", "allow_ps_true", "allow_ps_false", "swap_gate"]
+             "post_selection_rules_returned", "refusal_recorded", "allow_ps_true", "allow_ps_false", "swap_gate",
+             "converter_object_reused"]
 DECIDING = ["mon.converter_postconditions"]
 BUDGET = {"quick": 35, "thorough": 540}
 ASSUMPTIONS = ["qiskit.quantum_info.Operator (little-endian) is the reference unitary", "conversions whose photonic "
@@ -156,7 +157,16 @@ def run(ctx):
     _tier[0] = ctx.tier
     _rng[0] = np.random.default_rng(ctx.ss.spawn(1)[0])
     rng = ctx.rng
-    conv = lw.qubit.qiskit_converter
+    conv_fn = lw.qubit.qiskit_converter
+    from lightworks.qubit.converter.qiskit_convert import QiskitConverter
+    reused = {True: QiskitConverter(True), False: QiskitConverter(False)}
+
+    def conv(qc, allow_post_selection=False):
+        # half of the conversions go through long-lived converter objects (their state must not leak)
+        if rng.random() < 0.5:
+            ctx.bucket("converter_object_reused")
+            return reused[allow_post_selection].convert(qc)
+        return conv_fn(qc, allow_post_selection=allow_post_selection)
     it = 0
     while not ctx.out_of_time():
         it += 1
